@@ -51,6 +51,9 @@ let observe outs (observed : string list) : string =
   let after s =
     (* the harness consumed the stalled offer it saw *)
     let s' = if rt_stalled s && not (rt_stopping s) then rt_take_stall !cfg !pf s else s in
+    (* forget the write-only histories: candidates that differ only there behave alike
+       (TraversalConc.erase_exec) *)
+    let s' = rt_erase s' in
     (s', List.length (rt_started s')) in
   match ok with
   | [] ->
@@ -96,6 +99,51 @@ let () =
       let a = ap_of_tok addr in
       let outs = List.concat_map (fun (s, np) ->
           List.map (fun s' -> ([], s', np)) (rt_complete !cfg !pf s a r)) !cands in
+      observe outs o
+    | _ -> "?");
+  (* several completions released together: explore rt_conc_succ to a fixpoint (deduplicated),
+     quiesce every state in which all of them are done *)
+  reg "tdonem" (fun a o -> match a with
+    | _case :: n :: rest ->
+      let n = int_of_string n in
+      let rec parse k toks acc =
+        if k = 0 then List.rev acc else
+          match toks with
+          | addr :: from :: rest ->
+            let nodes, rest = counted rest in
+            let nodes6, rest = counted rest in
+            let from = if from = "-" then None else
+                (match split_on ':' from with
+                 | [ip; port; id; d] -> Some ((n_of_hex id, ap_of_ip (bytes_of_hex ip) (n_of_dec port)), n_of_dec d)
+                 | _ -> failwith "from") in
+            let r = rt_mk_resp from (List.map ninfo_of_tok nodes) (List.map ninfo_of_tok nodes6) in
+            parse (k - 1) rest ((ap_of_tok addr, r) :: acc)
+          | _ -> failwith "tdonem" in
+      let rs = parse n rest [] in
+      let explore (s0, ids) =
+        let fin = ref [] in
+        let seen = Hashtbl.create 64 in
+        let rec go frontier =
+          match frontier with
+          | [] -> ()
+          | _ ->
+            let next = List.concat_map (fun s ->
+                if rt_conc_finished s ids then (fin := s :: !fin; [])
+                else rt_conc_succ !cfg !pf s ids) frontier in
+            let next = dedup (List.map rt_erase next) in
+            let next = List.filter (fun s ->
+                (* structural hashing of a bounded prefix; equality confirmed by compare *)
+                let h = Hashtbl.hash s in
+                let l = Hashtbl.find_all seen h in
+                if List.exists (fun x -> compare x s = 0) l then false
+                else (Hashtbl.add seen h s; true)) next in
+            go next in
+        go [s0];
+        dedup (List.map (fun s -> rt_quiesce !cfg !pf s) !fin) in
+      let outs = List.concat_map (fun (s, np) ->
+          match rt_conc_begin !cfg !pf s rs with
+          | None -> []
+          | Some (ids, s1) -> List.map (fun s' -> ([], s', np)) (explore (s1, ids))) !cands in
       observe outs o
     | _ -> "?");
   reg "tend" (fun _ o -> match o with
